@@ -355,6 +355,7 @@ def _oracle(w, drv, sc, t_end, stats, out):
     closed = set()
     history = {}  # name.lower() -> list of (t_from, t_to, svc)
     crashed = set()
+    unreg_at = {}
     for rec in w.events:
         if rec[1] == "host-start" and rec[4] > 0:
             events.append((float(rec[0]), "restart", rec[2], None))
@@ -378,6 +379,7 @@ def _oracle(w, drv, sc, t_end, stats, out):
             if reg.get(n) == host:
                 del reg[n]
                 history[n][-1][1] = t
+                unreg_at[n] = (t, host)
         elif kind in ("close", "unreg_all"):
             if kind == "close":
                 closed.add(host)
@@ -386,6 +388,12 @@ def _oracle(w, drv, sc, t_end, stats, out):
                 history[n][-1][1] = t
         elif kind == "crash":
             crashed.add(host)
+            # a service whose goodbyes (three, over 250 ms) were still going out when the process died was not withdrawn
+            # any more than the ones that were registered: no goodbye may have left at all
+            for n, (tu, hu) in unreg_at.items():
+                if hu == host and t - tu < 0.3 and n not in reg:
+                    history[n][-1].append("crashed")
+                    dontcare.add(n)
             for n in [n for n, h in reg.items() if h == host]:
                 del reg[n]
                 history[n][-1][1] = t
